@@ -169,6 +169,35 @@ func runC07(e *Env) {
 					}
 				}
 			case *ssa.BinOp:
+				// `if err := found.err(); err != nil { return nil, err }`: the collected problems turned into an error by a
+				// helper that returns nil exactly for the empty list
+				if (x.Op == token.EQL || x.Op == token.NEQ) && (flow.IsNilConst(x.Y) || flow.IsNilConst(x.X)) {
+					ev := x.X
+					if flow.IsNilConst(x.X) {
+						ev = x.Y
+					}
+					if hc, ok := ev.(*ssa.Call); ok && flow.IsErrorType(ev.Type()) && errIffNonEmpty(hc.Call.StaticCallee()) {
+						nonNilArm := arm(x.Op == token.NEQ)
+						nilArm := arm(x.Op == token.EQL)
+						for _, ret := range flow.Returns(ts) {
+							rs := flow.RetResults(ret)
+							if flow.IsNilConst(rs[1]) && flow.EdgeDominates(b, nilArm, ret.Block()) {
+								classes["problems-are-fatal"]++
+								reg := flow.Region(b, nonNilArm)
+								okErr := len(reg) > 0
+								for blk := range reg {
+									if rr, ok := blk.Instrs[len(blk.Instrs)-1].(*ssa.Return); ok {
+										rrs := flow.RetResults(rr)
+										if !flow.IsNilConst(rrs[0]) || !(rrs[1] == ev || flow.KnownNonNilError(rrs[1], blk)) {
+											okErr = false
+										}
+									}
+								}
+								r.Check(okErr, "E3.reject-inventory", "toSyscallsWithConditions/problems-are-fatal", p.Pos(ifi.Pos()), "any recorded problem makes the group fail with (nil, error)", "recorded problems do not lead to (nil, error)")
+							}
+						}
+					}
+				}
 				// getSyscall(...) == nil  /  != nil
 				if (x.Op == token.EQL || x.Op == token.NEQ) && (flow.IsNilConst(x.Y) || flow.IsNilConst(x.X)) {
 					v := x.X
@@ -205,7 +234,7 @@ func runC07(e *Env) {
 							}
 						}
 						// len(problems) > 0 -> error
-						if st, ok := lc.Call.Args[0].Type().Underlying().(*types.Slice); ok && types.Identical(st.Elem(), types.Typ[types.String]) {
+						if st, ok := lc.Call.Args[0].Type().Underlying().(*types.Slice); ok && isProblemElem(st.Elem()) {
 							if _, isPhi := lc.Call.Args[0].(*ssa.Phi); isPhi {
 								if k, ok := flow.ConstInt(x.Y); ok && k == 0 && (x.Op == token.GTR || x.Op == token.NEQ) {
 									// this is the final check if the success return is behind its false arm
@@ -893,4 +922,44 @@ func entryGuards(p *load.Program, ts *ssa.Function) map[string]bool {
 		}
 	}
 	return out
+}
+
+// errIffNonEmpty: a helper of the module with one parameter (or receiver) of a []string type that returns a nil error exactly
+// when that list is empty: every return of nil sits behind `len(list) == 0`, every other return is provably non-nil.
+func errIffNonEmpty(h *ssa.Function) bool {
+	if h == nil || len(h.Blocks) == 0 || h.Pkg == nil || !strings.HasPrefix(h.Pkg.Pkg.Path(), load.Module) || len(h.Params) != 1 {
+		return false
+	}
+	st, ok := h.Params[0].Type().Underlying().(*types.Slice)
+	if !ok || !isProblemElem(st.Elem()) {
+		return false
+	}
+	res := h.Signature.Results()
+	if res.Len() != 1 || !flow.IsErrorType(res.At(0).Type()) {
+		return false
+	}
+	nNil, nErr := 0, 0
+	for _, ret := range flow.Returns(h) {
+		rv := flow.RetResults(ret)[0]
+		emptyHere, nonEmptyHere := false, false
+		for _, cd := range flow.DomConds(ret.Block()) {
+			if arg, pr, ok := flow.LenPred(cd.V, cd.Pol); ok && flow.StripConv(arg) == ssa.Value(h.Params[0]) {
+				if pr.OnlyZero() {
+					emptyHere = true
+				}
+				if pr.NonZero() {
+					nonEmptyHere = true
+				}
+			}
+		}
+		switch {
+		case flow.IsNilConst(rv) && emptyHere:
+			nNil++
+		case !flow.IsNilConst(rv) && nonEmptyHere && flow.KnownNonNilError(rv, ret.Block()):
+			nErr++
+		default:
+			return false
+		}
+	}
+	return nNil >= 1 && nErr >= 1
 }
